@@ -31,35 +31,39 @@ type Start struct {
 	Damage bool     // flip one byte inside a record of the oldest segment (reads of it fail)
 	Torn   bool     // three stray bytes after the last record of the newest segment (a torn append)
 	IdxCut bool     // the index file of the newest segment lost its last three bytes (not a whole number of items)
+	Stray  bool     // a file "import.log" whose name is not a base offset: listing the segments fails, so every Open fails after it took the lock
 }
 
 var Starts = []Start{
-	{"empty", nil, false, false, false, false},
-	{"single", []string{"P:0/1/u"}, false, false, false, false},
-	{"multi", []string{"P:0/1/u", "P:1/1/u", "P:0/1/u", "P:1/1/u", "P:0/1/u"}, false, false, false, false},
-	{"multi-noindex", []string{"P:0/1/u", "P:1/1/u", "P:0/1/u"}, true, false, false, false},
-	{"never-opened", nil, false, false, false, false}, // the directory exists but was never opened before the search
-	{"multi-damaged", []string{"P:0/1/u", "P:1/1/u", "P:0/1/u", "P:1/1/u", "P:0/1/u"}, false, true, false, false},
-	{"head-torn", []string{"P:0/1/u", "P:1/1/u", "P:0/1/u"}, false, false, true, false},
+	{"empty", nil, false, false, false, false, false},
+	{"single", []string{"P:0/1/u"}, false, false, false, false, false},
+	{"multi", []string{"P:0/1/u", "P:1/1/u", "P:0/1/u", "P:1/1/u", "P:0/1/u"}, false, false, false, false, false},
+	{"multi-noindex", []string{"P:0/1/u", "P:1/1/u", "P:0/1/u"}, true, false, false, false, false},
+	{"never-opened", nil, false, false, false, false, false}, // the directory exists but was never opened before the search
+	{"multi-damaged", []string{"P:0/1/u", "P:1/1/u", "P:0/1/u", "P:1/1/u", "P:0/1/u"}, false, true, false, false, false},
+	{"head-torn", []string{"P:0/1/u", "P:1/1/u", "P:0/1/u"}, false, false, true, false, false},
 	// the head segment [2 3 4] lost its middle message: offsets in it are not dense
-	{"head-gap", []string{"P:0/1/u", "P:1/1/u", "P:0/1/u,1/1/u,0/1/u", "D:3"}, false, false, false, false},
+	{"head-gap", []string{"P:0/1/u", "P:1/1/u", "P:0/1/u,1/1/u,0/1/u", "D:3"}, false, false, false, false, false},
 	// the newest message was deleted: the log ends in an empty head segment whose base offset is the next offset
-	{"tail-deleted", []string{"P:0/1/u", "P:1/1/u", "P:0/1/u", "D:2"}, false, false, false, false},
+	{"tail-deleted", []string{"P:0/1/u", "P:1/1/u", "P:0/1/u", "D:2"}, false, false, false, false, false},
 	// the head's index file is cut short: a lazily loading (read-only) handle only finds out at its first read
-	{"head-index-cut", []string{"P:0/1/u", "P:1/1/u", "P:0/1/u"}, false, false, false, true},
+	{"head-index-cut", []string{"P:0/1/u", "P:1/1/u", "P:0/1/u"}, false, false, false, true, false},
+	// a stray *.log file that is not a segment: Open fails while it lists the directory, after the lock was taken
+	{"stray-log", []string{"P:0/1/u", "P:1/1/u", "P:0/1/u"}, false, false, false, false, true},
 }
 
 var cfg = drv.Cfg{Keys: true, Times: true, Rollover: 60, Ver: 2}
 
 type sys struct {
-	damaged bool
-	w       *drv.World
-	h       [slots]klevdb.Log
-	mode    [slots]int  // 0 closed, 1 rw, 2 ro
-	blk     [slots]bool // opened through OpenBlocking (part of the state: another code path answers Publish and Close)
-	read    [slots]bool // the handle has been read through (segments loaded, pins taken and released): part of the state too
-	logsAt  [slots]string
-	problem []string
+	damaged    bool
+	unopenable bool // every Open is expected (not required) to fail, with whatever error: what matters is what it leaves behind
+	w          *drv.World
+	h          [slots]klevdb.Log
+	mode       [slots]int  // 0 closed, 1 rw, 2 ro
+	blk        [slots]bool // opened through OpenBlocking (part of the state: another code path answers Publish and Close)
+	read       [slots]bool // the handle has been read through (segments loaded, pins taken and released): part of the state too
+	logsAt     [slots]string
+	problem    []string
 }
 
 func (s *sys) failf(format string, a ...any) {
@@ -125,6 +129,11 @@ func build(root string, st Start, hist []string) (*sys, error) {
 			if b, err := os.ReadFile(idx[len(idx)-1]); err == nil && len(b) > 3 {
 				_ = os.WriteFile(idx[len(idx)-1], b[:len(b)-3], 0o600)
 			}
+		}
+		if st.Stray {
+			s.damaged = true
+			s.unopenable = true
+			_ = os.WriteFile(filepath.Join(w.Dir, "import.log"), []byte("not a segment"), 0o600)
 		}
 		if st.Damage {
 			s.damaged = true
@@ -316,6 +325,8 @@ func (s *sys) apply(letter string) {
 		case err == nil && !allowed:
 			s.failf("%s succeeded while the directory is open (slots %v)", letter, s.mode)
 			_ = l.Close()
+		case err != nil && allowed && s.unopenable:
+			// refused because of what is in the directory: the refusal must leave no lock behind (probe below)
 		case err != nil && allowed && s.damaged && strings.Contains(err.Error(), "corrupted"):
 			// a damaged directory may refuse to open; what matters is that the refusal leaves no lock behind (probe below)
 		case err != nil && allowed:
